@@ -96,3 +96,31 @@ Proof.
                   (sent_items_wf ka ca ms _ Hw) Hc) as Hr.
     rewrite sent_items_msgs, sent_items_pings in Hr. exact Hr.
 Qed.
+
+(* ... and with A's close after the messages: B delivers the messages, then
+   sees the close: one close frame in reply (masked iff B is a client), one
+   close event, nothing after it (junk) is delivered *)
+Theorem end_to_end_close (ka kb : nat -> key4) (ca cb : bool) (sa : st) (nb : nat)
+        (ms : list msg) (junk : list N) (chunks : list (list N)) :
+  csent sa = false -> Forall (fun m => wf_len (snd m)) ms ->
+  exists sa' frames sa'' cf,
+    send_all (keyf ka) ca sa ms = ROk (sa', frames) /\
+    on_close (keyf ka) ca sa' = ROk (sa'', mkO [] [cf] (if crecv sa then 1 else 0)%nat) /\
+    csent sa'' = true /\
+    (concat chunks = concat frames ++ cf ++ junk ->
+     recv_all (keyf kb) cb (clean nb) chunks =
+     ROk (mkS [] (mkP [] None (bump cb nb)) true true,
+          mkO ms [rfc_frame true 8 (okey kb cb nb) []] 1)).
+Proof.
+  intros Hs Hw.
+  destruct (send_all_spec ka ca ms sa Hs) as (sa' & E & Hcs & _ & Hcr).
+  eexists sa', _, _, _.
+  split; [exact E|]. rewrite (on_close_rfc ka ca sa' Hcs), Hcr.
+  split; [reflexivity|]. split; [reflexivity|].
+  intros Hc.
+  assert (Wq : wf_len []) by reflexivity.
+  pose proof (recv_items_close_any_cut kb cb (sent_items ka ca (nk (ps sa)) ms) nb
+                (okey ka ca (nk (ps sa'))) [] junk chunks
+                (sent_items_wf ka ca ms _ Hw) Wq Hc) as Hr.
+  rewrite sent_items_msgs, sent_items_pings in Hr. exact Hr.
+Qed.
